@@ -285,11 +285,20 @@ def pending_of(cmd):
     return None
 
 
+@native
+def resolve(clsref):
+    """(class, frozen definition) for a built-in class name, or for a generated custom definition (contracts/custom.py)"""
+    if isinstance(clsref, str):
+        cls = getattr(commands, clsref)
+        return (cls, frozen.COMMANDS[cls.__name__[:-len("Command")].lower()])
+    from contracts import custom
+    return custom.make_custom(clsref)
+
+
 def h_check_next_arg(clsname, st, atype, add, chk):
-    cls = getattr(commands, clsname)
+    (cls, S) = resolve(clsname)
     cmd = build_state(cls, st, "")
     cmdname = cmd.name
-    S = frozen.COMMANDS[cmdname]
     loaded = sym_set("loaded")
     commands.RequireCommand.loaded_extensions = loaded
     avalue = make_value(atype)
@@ -392,9 +401,8 @@ def h_check_next_arg(clsname, st, atype, add, chk):
 
 def h_iscomplete(clsname, st):
     """iscomplete() == (all positionals seen and no parameter pending); frame: only required_args."""
-    cls = getattr(commands, clsname)
+    (cls, S) = resolve(clsname)
     cmd = build_state(cls, st, "")
-    S = frozen.COMMANDS[cmd.name]
     npos0 = cmd.rargs_cnt
     pend0 = pending_of(cmd)
     nap0 = cmd.nextargpos
@@ -415,12 +423,12 @@ def h_iscomplete(clsname, st):
 
 def h_init(clsname):
     """Command.__init__ establishes Inv_arg (initial state) and the documented name."""
-    cls = getattr(commands, clsname)
+    (cls, S) = resolve(clsname)
     cmd = cls(None)
     prove(cmd.nextargpos == 0 and cmd.rargs_cnt == 0 and cmd.curarg is None and cmd.required_args == -1
           and cmd.arguments == {} and cmd.extra_arguments == {} and cmd.children == [] and cmd.parent is None,
           "init.state")
-    prove(cmd.name == clsname[:-len("Command")].lower(), "init.name")
+    prove(cmd.name == cls.__name__[:-len("Command")].lower(), "init.name")
 
 
 # ----------------------------------------------------------------------------- C03.A6 sequence-level: optional positional
